@@ -70,9 +70,14 @@ def gen_unit(rnd, uid, uniq, exported_here, foreign_exports, depth, aux, opts):
                 out.append(apm.data(".word", ("sym", rnd.choice(refs_pool))))
         return out
 
-    for n, kind, how in defs:
-        if how == "extern-before":
+    before = [n for n, kind, how in defs if how == "extern-before"]
+    if len(before) >= 2 and rnd.random() < 0.6:
+        # several names in one directive
+        stmts.append(apm.extern(*before))
+    else:
+        for n in before:
             stmts.append(apm.extern(n))
+    after_together = [] if rnd.random() < 0.5 else None
     if rnd.random() < 0.5:
         # local labels in the scope that is open at the head of the unit, before its first ordinary label: the same local names are
         # used at the tail of other units and in the includer's open scope, which must stay separate scopes
@@ -102,7 +107,10 @@ def gen_unit(rnd, uid, uniq, exported_here, foreign_exports, depth, aux, opts):
         else:
             stmts.append(apm.assign(n, apm.num(uniq.next()), extern=(how == "inline")))
         if how == "extern-after":
-            stmts.append(apm.extern(n))
+            if after_together is None:
+                stmts.append(apm.extern(n))
+            else:
+                after_together.append(n)
         stmts += probes(rnd.randrange(0, 3))
         if depth < 3 and opts.get("include") and rnd.random() < 0.2:
             inc_name = f"inc{uid}_{len(aux)}.mac"
@@ -113,6 +121,8 @@ def gen_unit(rnd, uid, uniq, exported_here, foreign_exports, depth, aux, opts):
             stmts.append(apm.include(inc_name))
     if use_extern_all and extern_all_at is None:
         stmts.append(apm.extern("all"))
+    if after_together:
+        stmts.append(apm.extern(*after_together))
     stmts += probes(rnd.randrange(1, 4))
     if rnd.random() < 0.4:
         # ... and in the scope that is still open at the tail of the unit
@@ -237,6 +247,16 @@ def gen_program(rnd):
                 files[other].stmts.append(apm.assign(name, apm.num(uniq.next() & 0o77777)))
             else:
                 plant = None
+    if rnd.random() < 0.2:
+        # a forward skip whose length is a difference of two local labels that are defined right after it; the following scope reuses the
+        # same local names at another distance.  The skip can only be evaluated later: it is still an expression of ITS scope
+        la, lb = rnd.sample(LOCALS, 2) if len(LOCALS) >= 2 else ("1$", "2$")
+        m1, m2 = rnd.sample(range(1, 7), 2)
+        tail = files[-1].stmts
+        tail += [apm.simple(".even"), apm.label("skpa7"),
+                 apm.dotassign(("bin", "-", ("bin", "+", ("bin", "+", ("sym", "skpa7"), apm.num(2 * rnd.randrange(0, 4))), ("loc", lb)), ("loc", la))),
+                 apm.label(la), apm.data(".byte", *[apm.num(uniq.next() & 0o377) for _ in range(m1)]), apm.label(lb), apm.data(".byte", apm.num(0o377)),
+                 apm.label("skpb7"), apm.label(la), apm.data(".byte", *[apm.num(uniq.next() & 0o377) for _ in range(m2)]), apm.label(lb), apm.data(".byte", apm.num(0o125))]
     base = rnd.choice([0o1000, 0o2000, 0])
     files[0].stmts.insert(0, apm.link(apm.num(base)))
     return apm.Program(files, aux), plant
